@@ -269,8 +269,8 @@ def h_disciplined(X, K):
 
 
 def obligations(tier):
-    k1, k2 = (6, 7) if tier == "quick" else (9, 9)
-    alpha = "{advance clock by symbolic delta, register_activity, hook-enter, hook-exit, resume watchdog task}"
+    k1, k2 = (6, 8) if tier == "quick" else (8, 10)
+    alpha = "{advance clock to a later symbolic instant, register_activity, hook-enter, hook-exit, resume watchdog task}"
     return [
         Symx("watchdog-schedule", lambda X: h_general(X, k1),
              bounds=f"every script of <= {k1} steps over {alpha}, <= {NEST} hooks pending at once; T in [1,{TMAX}] ms, every instant a symbolic int in [0,{CLOCK_MAX}] ms "
